@@ -910,8 +910,9 @@ def ob_dicts():
 def ob_strings():
     def h():
         P = {'S0': sym_str(choose(3, 'l0'), 'S0', alphabet='aB _'), 'S1': sym_str(1, 'S1', alphabet='aB _'), 'I0': sym_int('I0', -3, 3), 'I1': sym_int('I1', -3, 3),
-             'L0': sym_str(choose(4, 'll'), 'L0', alphabet='a\n\r\x0c'), 'S2': sym_str(choose(3, 'l2'), 'S2', alphabet='aB _')}
-        k = choose(18, 'prog')
+             'L0': sym_str(choose(4, 'll'), 'L0', alphabet='a\n\r\x0c'), 'S2': sym_str(choose(3, 'l2'), 'S2', alphabet='aB _'),
+             'S3': sym_str(choose(3, 'l3'), 'S3', alphabet='aZ9 _-\u00e9\u00b2\u00aa')}      # Latin-1 letters / digits that are alphanumeric for Unicode but not in a-zA-Z0-9
+        k = choose(19, 'prog')
         s0, s1, i0, i1, s2 = ('var', 'S0'), ('var', 'S1'), ('var', 'I0'), ('var', 'I1'), ('var', 'S2')
         progs = [
             [('assign', 'x', ('bin', '+', s0, s1)), ('assign', 'y', ('bin', '==', s0, s1))],
@@ -933,6 +934,8 @@ def ob_strings():
             [('assign', 'y', ('meth', s0, 'strip', [s2], {}))],
             [('assign', 'x', ('meth', s0, 'startswith', [s2], {})), ('assign', 'y', ('meth', s0, 'endswith', [s2], {})), ('assign', 'z', ('meth', s0, 'contains', [s2], {})), ('assign', 'w', ('bin', 'in', s2, s0))],
             [('assign', 'x', ('meth', s2, 'join', [('arr', [s0, ('str', 'q'), s0])], {})), ('assign', 'y', ('bin', '+', s0, s2)), ('assign', 'z', ('bin', '==', s0, s2))],
+            # str.yml: underscorify replaces "all characters other than a-zA-Z0-9" - a non-ASCII letter or digit is such a character
+            [('assign', 'x', ('meth', ('var', 'S3'), 'underscorify', [], {})), ('assign', 'y', ('meth', ('bin', '+', ('var', 'S3'), s1), 'underscorify', [], {}))],
         ]
         differential(progs[k], P)
     return h
@@ -1097,7 +1100,7 @@ def obligations(tier):
     out.append(Obligation('unary-types', ob_unary_types(), dict(forms='not, unary minus, if, ternary condition on all 5 types'), labels=('value', 'error')))
     out.append(Obligation('arrays', ob_arrays(), dict(programs=12), labels=('value', 'error'), max_paths=5000000))
     out.append(Obligation('dicts', ob_dicts(), dict(programs=9), labels=('value', 'error'), max_paths=5000000))
-    out.append(Obligation('strings', ob_strings(), dict(programs=14, strings='S0 0-2 chars, S1 1 char over {a,B,space,_}'), labels=('value', 'error'), max_paths=5000000))
+    out.append(Obligation('strings', ob_strings(), dict(programs=19, strings='S0, S2 0-2 chars, S1 1 char over {a,B,space,_}; S3 0-2 chars over {a,Z,9,space,_,-,e-acute,superscript two,feminine ordinal}'), labels=('value', 'error'), max_paths=5000000))
     out.append(Obligation('numbers', ob_numbers(), dict(programs=6), labels=('value', 'error'), max_paths=5000000))
     out.append(Obligation('control-flow', ob_control(), dict(programs=7), labels=('value', 'error'), max_paths=5000000))
     out.append(Obligation('variables', ob_variables(), dict(programs=6), labels=('value', 'error'), max_paths=5000000))
